@@ -60,7 +60,7 @@ META['bounds'] += (' || routing: concrete templates x concrete tree shapes, symb
                    '{raw:} path the raw leaf (so {var:} output contains no raw special), plus the same templates compiled with QENTEM_AUTO_ESCAPE_HTML=0 where {var:} must equal {raw:}')
 def queries(tier):
     qs = _string_queries(tier)
-    route = ('var', 'var_raw', 'var_missing', 'loop_array', 'loop_obj', 'loop_key', 'index_path', 'svar', 'inline_if')
+    route = ('var', 'var_raw', 'var_missing', 'var_unprintable', 'loop_array', 'loop_obj', 'loop_key', 'index_path', 'svar', 'inline_if')
     for q in _c02.queries('quick'):
         nm = q.name.split('/')[1]
         if q.name.startswith('render/') and nm in route:
